@@ -475,3 +475,21 @@ _ROUND8 = {
 }
 for _k, _v in _ROUND8.items():
     PROPS[_k]["rule"] += " " + _v
+
+# Forms added after the ninth set (DESIGN.md section 11.1, round 9)
+_ROUND9 = {
+    "C03": "Also: Host forms through main.go's proxy (underscores, leading hyphen, trailing dot, upper case, ports, IP literals): routed, never refused.",
+    "C04": "Also: the routes API filtered by each service of the table and the table's log renderings between cycles.",
+    "C05": "Also: bare hosts (no slash) in any letter case; weights such as 33.333, 12.3456, 123456.",
+    "C06": "Also: the table's log renderings (String, Dump) and filtered API listings between and alongside lookups.",
+    "C07": "Also: the upstream's own Strict-Transport-Security / Accept-Ranges / Alt-Svc headers with proxy.header.sts configured on a plain listener; the Host header as the client wrote it (trailing dot, underscores, ports) through main.go's proxy.",
+    "C10": "Also: complete records with consistent but tiny lengths (handshake message of 0-8 bytes).",
+    "C11": "Also: type=file sources whose two files have any names (server.crt/server.key, one combined file, the documented pair).",
+    "C12": "Also: every request method incl. OPTIONS with CORS preflight headers against auth= routes.",
+    "C13": "Also: request queries with ';' and a bare '%'; strip= and prepend= written with trailing slashes.",
+    "C17": "Also: Accept-Encoding values that refuse gzip through '*;q=0' or name other codings only; the upstream's Accept-Ranges.",
+    "C18": "Also: proxy.Shutdown(0) (the default wait) with silent clients on a gRPC and an http listener returns at once and leaves nothing listening.",
+    "C20": "Also: headers on several lines (the field is the first value), header values and queries of 4-25 KB (one line each, never glued together).",
+}
+for _k, _v in _ROUND9.items():
+    PROPS[_k]["rule"] += " " + _v
